@@ -198,7 +198,9 @@ class VersionConverter(object):
         self._handle_properties(root)
 
         # Exclude unsupported Section attributes, ignore comments, handle repositories.
-        for sec in root.iter("section"):
+        # The Sections are collected first: removing an element that itself
+        # contains Sections must not end the walk through the remaining ones.
+        for sec in list(root.iter("section")):
             sec_name = sec.find("name").text
             for elem in sec:
                 if elem.tag not in Section.arguments_keys and isinstance(elem.tag, str):
@@ -296,7 +298,9 @@ class VersionConverter(object):
 
         :param root: lxml.ElementTree containing a v1.0 odML property list.
         """
-        for prop in root.iter("property"):
+        # The Properties are collected first: removing an element that itself
+        # contains Properties must not end the walk through the remaining ones.
+        for prop in list(root.iter("property")):
             main_val = ET.Element("value")
             value_texts = []
             parent = prop.getparent()
@@ -318,7 +322,8 @@ class VersionConverter(object):
             prop_id = "%s|%s:%s" % (sname, stype, prop.find("name").text)
 
             # Special handling of Values
-            for value in prop.iter("value"):
+            # Only the value elements of the Property itself are its Values.
+            for value in prop.findall("value"):
                 # Move supported elements from Value to parent Property.
                 self._handle_value(value, prop_id)
 
@@ -355,8 +360,9 @@ class VersionConverter(object):
         :param log_id: String containing Section and Property name and type to log
                        omitted elements and value contents.
         """
-        for val_elem in value.iter():
-            if val_elem.tag != "value":
+        # Only the elements directly below the Value are its attributes.
+        for val_elem in value:
+            if isinstance(val_elem.tag, str):
                 # Check whether current Value attribute has already been exported
                 # under its own or a different name. Give a warning, if the values differ.
                 parent = value.getparent()
